@@ -4,7 +4,7 @@
    passing, returning or storing an object shares it, so an update through any alias is visible through all;
    `is` is true exactly for two references to the same object.
    Pinned statements only; proofs live in Objects/Proofs.v.
-   Model.v: impl-model of the object part of the interpreter heap: a class body allocates a FRESH cell per field,
+   Model.v: (impl false)-model of the object part of the interpreter heap: a class body allocates a FRESH cell per field,
    make_object copies the name -> cell map into the reference and allocates an identity token, every copy of a
    reference carries its own copy of that map, lookup / ptr_mut go through the map of the reference at hand,
    `is` compares tokens.  The meaning of the operations (`gstep`) is written once over an interface of heap
@@ -13,10 +13,10 @@
 From MS Require Import Objects.Model Objects.Spec Objects.Proofs.
 
 (* FULL STATEMENT, refinement: for ALL class tables ct (any number of classes, fields, constructor shapes) and ALL
-   histories h (no bound on length, number of objects or aliases) the impl-model prints exactly the observations of
+   histories h (no bound on length, number of objects or aliases) the (impl false)-model prints exactly the observations of
    the abstract store and ends the same way (runs to the end / stops with the same failure at the same operation). *)
-Check objects_refine : forall (ct : ctab) (h : list oop), run ct h = spec_run ct h.
-Theorem C08_objects_refine : forall (ct : ctab) (h : list oop), run ct h = spec_run ct h.
+Check objects_refine : forall (ct : ctab) (h : list oop), run false ct h = spec_run ct h.
+Theorem C08_objects_refine : forall (ct : ctab) (h : list oop), run false ct h = spec_run ct h.
 Proof. exact objects_refine. Qed.
 Print Assumptions C08_objects_refine.
 
@@ -29,13 +29,13 @@ Print Assumptions C08_reachable_inv.
 (* each constructor call yields a distinct object: a new identity, cells no earlier object has, every earlier
    cell keeps its content *)
 Check construct_fresh : forall ct reg st dst k args st' os,
-  inv reg st -> step ct st (New dst k args) = Ok (st', os) ->
+  inv reg st -> step false ct st (New dst k args) = Ok (st', os) ->
   exists o, aget (env st') dst = Some (VObj o) /\ o_cls o = k /\
     (forall i o', reg i = Some o' -> o_id o' <> o_id o) /\
     (forall i o' f g c, reg i = Some o' -> aget (o_map o) f = Some c -> aget (o_map o') g = Some c -> False) /\
     (forall i o' g c, reg i = Some o' -> aget (o_map o') g = Some c -> aget (cells st') c = aget (cells st) c).
 Theorem C08_construct_fresh : forall ct reg st dst k args st' os,
-  inv reg st -> step ct st (New dst k args) = Ok (st', os) ->
+  inv reg st -> step false ct st (New dst k args) = Ok (st', os) ->
   exists o, aget (env st') dst = Some (VObj o) /\ o_cls o = k /\
     (forall i o', reg i = Some o' -> o_id o' <> o_id o) /\
     (forall i o' f g c, reg i = Some o' -> aget (o_map o) f = Some c -> aget (o_map o') g = Some c -> False) /\
@@ -45,98 +45,121 @@ Print Assumptions C08_construct_fresh.
 
 (* two constructions never share a field cell: writing a field of one never changes any field of the other *)
 Check distinct_objects_independent : forall reg st a b o1 o2,
-  inv reg st -> gpath impl st a = Ok (VObj o1) -> gpath impl st b = Ok (VObj o2) -> o_id o1 <> o_id o2 ->
+  inv reg st -> gpath (impl false) st a = Ok (VObj o1) -> gpath (impl false) st b = Ok (VObj o2) -> o_id o1 <> o_id o2 ->
   (forall f g c, aget (o_map o1) f = Some c -> aget (o_map o2) g = Some c -> False) /\
-  (forall f x st', m_fwrite st (VObj o1) f x = Ok st' -> forall g, m_fread st' (VObj o2) g = m_fread st (VObj o2) g).
+  (forall f x st', m_fwrite false st (VObj o1) f x = Ok st' -> forall g, m_fread false st' (VObj o2) g = m_fread false st (VObj o2) g).
 Theorem C08_distinct_objects_independent : forall reg st a b o1 o2,
-  inv reg st -> gpath impl st a = Ok (VObj o1) -> gpath impl st b = Ok (VObj o2) -> o_id o1 <> o_id o2 ->
+  inv reg st -> gpath (impl false) st a = Ok (VObj o1) -> gpath (impl false) st b = Ok (VObj o2) -> o_id o1 <> o_id o2 ->
   (forall f g c, aget (o_map o1) f = Some c -> aget (o_map o2) g = Some c -> False) /\
-  (forall f x st', m_fwrite st (VObj o1) f x = Ok st' -> forall g, m_fread st' (VObj o2) g = m_fread st (VObj o2) g).
+  (forall f x st', m_fwrite false st (VObj o1) f x = Ok st' -> forall g, m_fread false st' (VObj o2) g = m_fread false st (VObj o2) g).
 Proof. exact distinct_objects_independent. Qed.
 Print Assumptions C08_distinct_objects_independent.
 
 (* ... whose fields hold what the constructor stored *)
 Check constructor_stores : forall ct st k args st' o cd f,
-  gnew impl ct st k args = Ok (st', VObj o) ->
+  gnew (impl false) ct st k args = Ok (st', VObj o) ->
   nth_error ct (N.to_nat k) = Some cd -> NoDup (map fst (c_body cd)) ->
-  (forall j v, In (f, IParam j) (c_body cd) -> nth_error args j = Some v -> m_fread st' (VObj o) f = Ok v) /\
-  (forall l, In (f, IConst l) (c_body cd) -> m_fread st' (VObj o) f = Ok (m_lit l)) /\
-  (existsb (N.eqb f) (c_fields cd) = true -> ~ In f (map fst (c_body cd)) -> m_fread st' (VObj o) f = Ok VNil).
+  (forall j v, In (f, IParam j) (c_body cd) -> nth_error args j = Some v -> m_fread false st' (VObj o) f = Ok v) /\
+  (forall l, In (f, IConst l) (c_body cd) -> m_fread false st' (VObj o) f = Ok (m_lit l)) /\
+  (existsb (N.eqb f) (c_fields cd) = true -> ~ In f (map fst (c_body cd)) -> m_fread false st' (VObj o) f = Ok VNil).
 Theorem C08_constructor_stores : forall ct st k args st' o cd f,
-  gnew impl ct st k args = Ok (st', VObj o) ->
+  gnew (impl false) ct st k args = Ok (st', VObj o) ->
   nth_error ct (N.to_nat k) = Some cd -> NoDup (map fst (c_body cd)) ->
-  (forall j v, In (f, IParam j) (c_body cd) -> nth_error args j = Some v -> m_fread st' (VObj o) f = Ok v) /\
-  (forall l, In (f, IConst l) (c_body cd) -> m_fread st' (VObj o) f = Ok (m_lit l)) /\
-  (existsb (N.eqb f) (c_fields cd) = true -> ~ In f (map fst (c_body cd)) -> m_fread st' (VObj o) f = Ok VNil).
+  (forall j v, In (f, IParam j) (c_body cd) -> nth_error args j = Some v -> m_fread false st' (VObj o) f = Ok v) /\
+  (forall l, In (f, IConst l) (c_body cd) -> m_fread false st' (VObj o) f = Ok (m_lit l)) /\
+  (existsb (N.eqb f) (c_fields cd) = true -> ~ In f (map fst (c_body cd)) -> m_fread false st' (VObj o) f = Ok VNil).
 Proof. exact constructor_stores. Qed.
 Print Assumptions C08_constructor_stores.
 
 (* any alias sees every update: two references with the same identity, reached through any names / fields, are the
    same reference, and what is written through one is what is read through the other *)
 Check alias_shares : forall reg st a b o1 o2,
-  inv reg st -> gpath impl st a = Ok (VObj o1) -> gpath impl st b = Ok (VObj o2) -> o_id o1 = o_id o2 ->
+  inv reg st -> gpath (impl false) st a = Ok (VObj o1) -> gpath (impl false) st b = Ok (VObj o2) -> o_id o1 = o_id o2 ->
   o1 = o2 /\
-  (forall f x st', m_fwrite st (VObj o1) f x = Ok st' -> m_fread st' (VObj o2) f = Ok x) /\
-  (forall f, m_fread st (VObj o1) f = m_fread st (VObj o2) f).
+  (forall f x st', m_fwrite false st (VObj o1) f x = Ok st' -> m_fread false st' (VObj o2) f = Ok x) /\
+  (forall f, m_fread false st (VObj o1) f = m_fread false st (VObj o2) f).
 Theorem C08_alias_shares : forall reg st a b o1 o2,
-  inv reg st -> gpath impl st a = Ok (VObj o1) -> gpath impl st b = Ok (VObj o2) -> o_id o1 = o_id o2 ->
+  inv reg st -> gpath (impl false) st a = Ok (VObj o1) -> gpath (impl false) st b = Ok (VObj o2) -> o_id o1 = o_id o2 ->
   o1 = o2 /\
-  (forall f x st', m_fwrite st (VObj o1) f x = Ok st' -> m_fread st' (VObj o2) f = Ok x) /\
-  (forall f, m_fread st (VObj o1) f = m_fread st (VObj o2) f).
+  (forall f x st', m_fwrite false st (VObj o1) f x = Ok st' -> m_fread false st' (VObj o2) f = Ok x) /\
+  (forall f, m_fread false st (VObj o1) f = m_fread false st (VObj o2) f).
 Proof. exact alias_shares. Qed.
 Print Assumptions C08_alias_shares.
 
 (* assigning (a name or a field), returning, `me`, passing, storing in a list, storing in a field preserve identity:
    the new name / list element / field holds the very value (reference: class, cells, token) that was given *)
-Check bind_same : forall ct st dst p st' os, step ct st (Bind dst p false) = Ok (st', os) ->
-  exists v, gpath impl st p = Ok v /\ aget (env st') dst = Some v /\ cells st' = cells st /\ lists st' = lists st /\ os = [].
-Check return_same : forall ct st dst p st' os, step ct st (ReturnSame dst p) = Ok (st', os) ->
-  exists v, gpath impl st p = Ok v /\ aget (env st') dst = Some v /\ cells st' = cells st /\ lists st' = lists st /\ os = [].
-Check me_same : forall ct st d p st' os, step ct st (Call (RBind d) p MMe []) = Ok (st', os) ->
-  exists v, gpath impl st p = Ok v /\ aget (env st') d = Some v /\ cells st' = cells st /\ lists st' = lists st /\ os = [].
-Check pass_is_update : forall ct st p f d o, gpath impl st p = Ok (VObj o) ->
-  step ct st (PassAndMutate p f d) = step ct st (OpAssign p f Add d).
-Check list_holds_reference : forall ct st lp p st' os, step ct st (ListPush lp (OPath p)) = Ok (st', os) ->
-  exists lv xs v, gpath impl st lp = Ok lv /\ gpath impl st p = Ok v /\ m_lread st lv = Ok xs /\
+Check bind_same : forall ct st dst p st' os, step false ct st (Bind dst p false) = Ok (st', os) ->
+  exists v, gpath (impl false) st p = Ok v /\ aget (env st') dst = Some v /\ cells st' = cells st /\ lists st' = lists st /\ os = [].
+Check return_same : forall ct st dst p st' os, step false ct st (ReturnSame dst p) = Ok (st', os) ->
+  exists v, gpath (impl false) st p = Ok v /\ aget (env st') dst = Some v /\ cells st' = cells st /\ lists st' = lists st /\ os = [].
+Check me_same : forall ct st d p st' os, step false ct st (Call (RBind d) p MMe []) = Ok (st', os) ->
+  exists v, gpath (impl false) st p = Ok v /\ aget (env st') d = Some v /\ cells st' = cells st /\ lists st' = lists st /\ os = [].
+Check pass_is_update : forall ct st p f d o, gpath (impl false) st p = Ok (VObj o) ->
+  step false ct st (PassAndMutate p f d) = step false ct st (OpAssign p f Add d).
+Check list_holds_reference : forall ct st lp p st' os, step false ct st (ListPush lp (OPath p)) = Ok (st', os) ->
+  exists lv xs v, gpath (impl false) st lp = Ok lv /\ gpath (impl false) st p = Ok v /\ m_lread st lv = Ok xs /\
     m_lread st' lv = Ok (xs ++ [v]) /\ nth_error (xs ++ [v]) (length xs) = Some v /\ cells st' = cells st.
-Check field_holds_reference : forall st o f v st', m_fwrite st (VObj o) f v = Ok st' -> m_fread st' (VObj o) f = Ok v.
+Check field_holds_reference : forall st o f v st', m_fwrite false st (VObj o) f v = Ok st' -> m_fread false st' (VObj o) f = Ok v.
 
 (* a method called on an object updates the fields of that object only: the cells of every other object are untouched
    (all methods of the family except bump_f / poke_f_g, which are written to update their argument / the object in a field) *)
 Check method_updates_receiver_only : forall ct reg st o m args st' r,
   inv reg st -> reg (o_id o) = Some o -> receiver_only m = true ->
-  gmeth impl ct st (VObj o) m args = Ok (st', r) -> unchanged_outside reg (o_id o) st st'.
+  gmeth (impl false) ct st (VObj o) m args = Ok (st', r) -> unchanged_outside reg (o_id o) st st'.
 Theorem C08_method_updates_receiver_only : forall ct reg st o m args st' r,
   inv reg st -> reg (o_id o) = Some o -> receiver_only m = true ->
-  gmeth impl ct st (VObj o) m args = Ok (st', r) -> unchanged_outside reg (o_id o) st st'.
+  gmeth (impl false) ct st (VObj o) m args = Ok (st', r) -> unchanged_outside reg (o_id o) st st'.
 Proof. exact method_updates_receiver_only. Qed.
 Print Assumptions C08_method_updates_receiver_only.
 Check bump_updates_argument_only : forall ct reg st o f other d st' r,
   inv reg st -> reg (o_id other) = Some other ->
-  gmeth impl ct st (VObj o) (MBump f) [VObj other; d] = Ok (st', r) -> unchanged_outside reg (o_id other) st st'.
+  gmeth (impl false) ct st (VObj o) (MBump f) [VObj other; d] = Ok (st', r) -> unchanged_outside reg (o_id other) st st'.
 Check poke_updates_field_object_only : forall ct reg st o f g d st' r,
   inv reg st -> reg (o_id o) = Some o ->
-  gmeth impl ct st (VObj o) (MPoke f g) [d] = Ok (st', r) ->
-  exists inner, m_fread st (VObj o) f = Ok (VObj inner) /\ unchanged_outside reg (o_id inner) st st'.
+  gmeth (impl false) ct st (VObj o) (MPoke f g) [d] = Ok (st', r) ->
+  exists v inner, m_fread false st (VObj o) f = Ok v /\ strip v = VObj inner /\ unchanged_outside reg (o_id inner) st st'.
 (* ... reads the fields of that object, and may call its other methods *)
-Check getter_reads_receiver : forall ct st o f, gmeth impl ct st (VObj o) (MGet f) [] =
-  match m_fread st (VObj o) f with Ok v => Ok (st, Some v) | Fail e => Fail e end.
-Check twice_calls_inc : forall ct st self f d, gmeth impl ct st self (MTwice f) [d] =
-  do r1 <- gmeth impl ct st self (MInc f) [d]; gmeth impl ct (fst r1) self (MInc f) [d].
+Check getter_reads_receiver : forall ct st o f, gmeth (impl false) ct st (VObj o) (MGet f) [] =
+  match m_fread false st (VObj o) f with Ok v => Ok (st, Some v) | Fail e => Fail e end.
+Check twice_calls_inc : forall ct st self f d, gmeth (impl false) ct st self (MTwice f) [d] =
+  do r1 <- gmeth (impl false) ct st self (MInc f) [d]; gmeth (impl false) ct (fst r1) self (MInc f) [d].
 
 (* `is` is true exactly for two references to the same object *)
 Check is_iff_same_object : forall ct reg st a b o1 o2,
-  inv reg st -> gpath impl st a = Ok (VObj o1) -> gpath impl st b = Ok (VObj o2) ->
-  step ct st (IsTest a b) = Ok (st, [OBool (o_id o1 =? o_id o2)]) /\
+  inv reg st -> gpath (impl false) st a = Ok (VObj o1) -> gpath (impl false) st b = Ok (VObj o2) ->
+  step false ct st (IsTest a b) = Ok (st, [OBool (o_id o1 =? o_id o2)]) /\
   ((o_id o1 =? o_id o2) = true <-> o1 = o2).
 Theorem C08_is_iff_same_object : forall ct reg st a b o1 o2,
-  inv reg st -> gpath impl st a = Ok (VObj o1) -> gpath impl st b = Ok (VObj o2) ->
-  step ct st (IsTest a b) = Ok (st, [OBool (o_id o1 =? o_id o2)]) /\
+  inv reg st -> gpath (impl false) st a = Ok (VObj o1) -> gpath (impl false) st b = Ok (VObj o2) ->
+  step false ct st (IsTest a b) = Ok (st, [OBool (o_id o1 =? o_id o2)]) /\
   ((o_id o1 =? o_id o2) = true <-> o1 = o2).
 Proof. exact is_iff_same_object. Qed.
 Print Assumptions C08_is_iff_same_object.
 Check spec_is_identity : forall ct ss a b i j, gpath spec ss a = Ok (SObj i) -> gpath spec ss b = Ok (SObj j) ->
   sstep ct ss (IsTest a b) = Ok (ss, [OBool (i =? j)]).
+
+(* a reference that went through a map (GcMap replace / remove hand out Optional(Some(object))) is the object it holds,
+   for `is` and for field access (the repaired behaviour, legacy = false) *)
+Check wrapped_is_content : forall o1 o2,
+  m_is false (VSome o1) (VObj o2) = Ok (o_id o1 =? o_id o2) /\
+  m_is false (VObj o1) (VSome o2) = Ok (o_id o1 =? o_id o2) /\
+  m_is false (VSome o1) (VSome o2) = Ok (o_id o1 =? o_id o2).
+Check wrapped_field_access : forall st o f x,
+  m_fread false st (VSome o) f = m_fread false st (VObj o) f /\
+  m_fwrite false st (VSome o) f x = m_fwrite false st (VObj o) f x.
+
+(* FINDINGS: the faithful model of the tree before fixes/c08-is-present-optional.diff and fixes/c08-lookup-present-optional.diff
+   (legacy = true) REFUTES the property: `thru(o) is o` printed false and `thru(o).f` stopped the program
+   (the theorems above are about the repaired behaviour) *)
+Check wrapped_is_legacy_refuted : exists h, run true ct1 h <> spec_run ct1 h.
+Check wrapped_lookup_legacy_refuted : exists h, run true ct1 h <> spec_run ct1 h.
+Check wrapped_legacy_witness :
+  run true ct1 [New 0 0 [OLit (LInt 1)]; ThroughMap 1 (PVar 0); IsTest (PVar 1) (PVar 0); Print (PDot (PVar 1) 0)]
+    = ([OBool false], Some Err) /\
+  run false ct1 [New 0 0 [OLit (LInt 1)]; ThroughMap 1 (PVar 0); IsTest (PVar 1) (PVar 0); Print (PDot (PVar 1) 0)]
+    = ([OBool true; OInt 1], None) /\
+  spec_run ct1 [New 0 0 [OLit (LInt 1)]; ThroughMap 1 (PVar 0); IsTest (PVar 1) (PVar 0); Print (PDot (PVar 1) 0)]
+    = ([OBool true; OInt 1], None).
 
 (* non-vacuity 1: a representation in which constructions share cells does NOT refine the abstract store *)
 Check shared_cells_refuted : exists ct h, grun_from impl_shared ct st0 h <> spec_run ct h.
@@ -153,8 +176,9 @@ Example C08_nonvacuous :
             FieldWrite 0 1 (OPath (PVar 1)); OpAssign (PDot (PVar 0) 1) 0 Add (LInt 5); FieldRead 1 0;
             IsTest (PDot (PVar 2) 1) (PVar 1);
             CallMethod (RBind 3) 0 (MDup [0]) []; IsTest (PVar 3) (PVar 0); FieldRead 3 0; IsNil (PDot (PVar 3) 1);
+            ThroughMap 4 (PVar 1); IsTest (PVar 4) (PVar 1); OpAssign (PVar 4) 0 Add (LInt 1); FieldRead 1 0;
             Print (PDot (PDot (PVar 3) 1) 0); FieldRead 0 0] in
   spec_run ct h = ([OInt 10; OInt 1; OBool true; OBool false; OInt 14; OInt 14; OInt 6; OBool true;
-                    OBool false; OInt 14; OBool true], Some Err)
-  /\ run ct h = spec_run ct h.
+                    OBool false; OInt 14; OBool true; OBool true; OInt 7], Some Err)
+  /\ run false ct h = spec_run ct h.
 Proof. vm_compute. split; reflexivity. Qed.
